@@ -125,6 +125,66 @@ def _eval_str_pred(e, fi, value):
   return None
 
 
+
+def check_effective_args(rep, cc, rule, site_suffix, fparam='f', aparam='args'):
+  """What reaches the converted function as positional arguments, path by path
+  (sa/pathsym): `args` when the target has no bound instance, `(instance,) +
+  args` when it has one -- decided by an identity test against None --, and
+  `(f,) + args` for callable objects."""
+  from sa import pathsym
+  S = "getattr(%s, '__self__', None)" % fparam
+  inst_forms = ('(%s,) + %s' % (S, aparam), '(%s, *%s)' % (S, aparam))
+  obj_forms = ('(%s,) + %s' % (fparam, aparam), '(%s, *%s)' % (fparam, aparam))
+  sites = []
+  for st in ast.walk(cc.node):
+    if isinstance(st, (ast.Assign, ast.Expr, ast.Return)):
+      for c in ast.walk(st):
+        if isinstance(c, ast.Call) and isinstance(c.func, ast.Name) and \
+            c.func.id == 'converted_f' and c.args and isinstance(c.args[0], ast.Starred):
+          sites.append((st, c.args[0].value))
+  if not sites:
+    raise core.AnalysisError('converted_call: execution of the converted function not found')
+  bad, seen = [], set()
+
+  def leaf(v, conds):
+    t = core.norm(v)
+    pos = any((pol == 'T' and core.norm(c_) == S + ' is not None') or
+              (pol == 'F' and core.norm(c_) == S + ' is None') for pol, c_ in conds)
+    neg = any((pol == 'F' and core.norm(c_) == S + ' is not None') or
+              (pol == 'T' and core.norm(c_) == S + ' is None') for pol, c_ in conds)
+    if isinstance(v, ast.IfExp):
+      tt = core.norm(v.test)
+      if tt == S + ' is None':
+        return leaf(v.body, conds + [('T', v.test)]) and leaf(v.orelse, conds + [('F', v.test)])
+      if tt == S + ' is not None':
+        return leaf(v.body, conds + [('T', v.test)]) and leaf(v.orelse, conds + [('F', v.test)])
+      return False
+    if t == aparam:
+      return neg and not pos
+    if t in inst_forms:
+      return pos and not neg
+    if t in obj_forms:
+      return True
+    return False
+  for st, x in sites:
+    for conds, v in pathsym.path_values(cc.node, st, x):
+      key = (core.norm(v), tuple((p_, core.norm(t_)) for p_, t_ in conds
+                                 if '__self__' in core.norm(t_)))
+      if key in seen:
+        continue
+      seen.add(key)
+      if not leaf(v, list(conds)):
+        bad.append({'value': key[0][:80], 'under': [list(k) for k in key[1]]})
+  n_shapes = sum(2 if ' if ' in k[0] else 1 for k in seen)
+  rep.check(not bad and n_shapes >= 3, rule, '%s:%s' % (cc.site, site_suffix),
+            'a bound method converts to a function taking the instance first: the '
+            'converted function must receive (instance,) + args exactly when the '
+            'instance is not None (identity test: a truthiness test drops falsy '
+            'receivers), args otherwise, (f,) + args for callable objects',
+            {'unexpected': bad[:3], 'shapes': len(seen)}, line=cc.node.lineno,
+            witness='method of an object whose __len__/__bool__ is falsy')
+
+
 def check(model, rep, tier):
   rep.not_decided = ('how exotic callables classify at run time (inspect '
                      'predicates are trusted); warning text')
@@ -225,34 +285,8 @@ def check(model, rep, tier):
         rep.check(ok, 'CALL-FAITHFUL', site,
                   'frame-sensitive builtin must receive the caller scope',
                   {'args': a}, line=c.lineno)
-  # effective_args derivation
-  for n in ast.walk(cc.node):
-    if isinstance(n, ast.Assign) and core.dotted(n.targets[0]) == 'effective_args':
-      v = core.norm(n.value)
-      site = '%s:effective_args=%s' % (cc.site, v)
-      if v == 'args':
-        rep.hold('CALL-FAITHFUL', site)
-      elif v == '(f_self,) + effective_args':
-        # guard must be an identity test
-        guard = None
-        for i in ast.walk(cc.node):
-          if isinstance(i, ast.If) and any(x is n for b in i.body for x in ast.walk(b)):
-            guard = i.test
-        ok = isinstance(guard, ast.Compare) and isinstance(
-            guard.ops[0], ast.IsNot) and core.norm(guard.left) == 'f_self' and \
-            isinstance(guard.comparators[0], ast.Constant) and \
-            guard.comparators[0].value is None
-        rep.check(ok, 'CALL-FAITHFUL', site,
-                  'the bound instance must be prepended whenever it is not None '
-                  '(identity test): a truthiness test drops falsy receivers',
-                  {'guard': core.norm(guard) if guard is not None else None},
-                  line=n.lineno,
-                  witness='method of an object whose __len__/__bool__ is falsy')
-      elif v == '(f,) + args':
-        rep.hold('CALL-FAITHFUL', site)
-      else:
-        rep.violation('CALL-FAITHFUL', site, 'unexpected derivation of the '
-                      'arguments passed to the converted function', line=n.lineno)
+  # effective_args derivation (path-wise)
+  check_effective_args(rep, cc, 'CALL-FAITHFUL', 'effective-args')
   from sa import rules_order
   rules_order.user_order(model, rep, 'CALL-FAITHFUL')
   # what is converted and what it is called with, per kind of callable
@@ -290,7 +324,11 @@ def check(model, rep, tier):
           ok = False
       elif is_fn:
         pairs_seen.append(('function-or-method', tv, ev))
-        if tv != F or ev not in (A, "(getattr(%s, '__self__', None),) + %s" % (F, A)):
+        S_ = "getattr(%s, '__self__', None)" % F
+        inst_ = '(%s,) + %s' % (S_, A)
+        if tv != F or ev not in (A, inst_,
+                                 '%s if %s is None else %s' % (A, S_, inst_),
+                                 '%s if %s is not None else %s' % (inst_, S_, A)):
           ok = False
   rep.check(ok, 'CALL-FAITHFUL', '%s:target-and-arguments' % cc.site,
             'a function / method is converted as it is (its __self__ prepended); '
